@@ -92,20 +92,22 @@ def gen_cases(tier, seed):
     for p in ps:
         c = secp.small_curve(p)
         chunk = 4 if tier == "quick" else 2
-        for k0 in range(1, c.n, chunk):
+        for j, k0 in enumerate(range(1, c.n, chunk)):
+            if tier == "quick" and p != 43 and (j + seed) % 3:
+                continue                    # quick: p=43 completely, a third of the keys of p=67 (rotating with the seed)
             yield "smallcurve", {"p": p, "keys": [k0, min(c.n, k0 + chunk)]}
 
 
 def required(tier):
     return {"api.signed": 300, "cli.signed": 20, "scripted.signed": 300, "class.s_short_topbit": 20, "class.digest_ge_n": 10,
             "class.retry_s0": 1, "class.r_top_80": 3, "class.r_top_00": 3, "class.r_top_7f": 3, "class.inner_retry_draw0": 5, "reuse.pairs_checked": 100,
-            "small.signed": 10000, "small.retry_branch": 10,
+            "small.signed": 10000, "small.p43.keys": 30, "small.retry_branch": 10,
             "contract:sign.range_low_s": 1000, "contract:der_encode_sig.strict_roundtrip": 300,
             "contract:sig.flag_suffix": 300}
 
 
 def exhaustive(tier, counts):
-    return "all (key, digest in [0,N+1], first nonce draw) on small curves p in " + ("{43,67}" if tier == "quick" else "{43,67,79,127}")
+    return "all (key, digest in [0,N+1], first nonce draw) on the small curve p=43" + (" (p=67: one third of the keys)" if tier == "quick" else " and p in {67,79,127}")
 
 
 # ---------------------------------------------------------------------------------------------
@@ -434,3 +436,5 @@ def _smallcurve(ctx, params):
                     ctx.count("small.signed")
                     ctx.bulk_distinct(1)
             ctx.nontrivial(["small", p, d])
+            if p == 43:
+                ctx.count("small.p43.keys")
